@@ -13,6 +13,7 @@ CONSTANTS
   ReadFaultKinds <- RF_corrupt
   AllowSoleRecordLoss = FALSE
   AllowIntraSetCollision = FALSE
+  AllowContinueAfterVolatile = TRUE
   RelevantSignersOnly = TRUE
 SPECIFICATION Spec
 VIEW View
